@@ -1,6 +1,8 @@
-\* C03 GEN: static-prefix shapes x position, each becomes a gallery component generated at check time.
+\* C03 GEN: static-text shapes x position x end-of-line convention, each becomes a gallery component generated at check time.
 CONSTANTS
   EscMode = "any"
+  CommentGuard = FALSE
+  NlReset = FALSE
   MaxPre = 1
   EmitCases = TRUE
 INIT GInit
